@@ -17,11 +17,14 @@ pub fn format_stub(_args: std::fmt::Arguments<'_>) -> String { String::new() }
 
 /// `core::mem::swap` as one typed move each way.  Behaviourally identical to the real one; the
 /// real implementation swaps large values in a loop over 8-byte chunks (33 iterations for one
-/// table of the model), which would force every harness to unwind every loop that far.
+/// table of the model), which would force every harness to unwind every loop that far, and it
+/// moves pointers as integers.
 pub fn mem_swap<T>(x: &mut T, y: &mut T) {
    unsafe {
+      // typed moves only: a `memcpy` would reassemble the pointers inside `T` from bytes and
+      // CBMC would lose track of what they point to
       let tmp = std::ptr::read(x);
-      std::ptr::copy_nonoverlapping(y as *const T, x as *mut T, 1);
+      std::ptr::write(x, std::ptr::read(y));
       std::ptr::write(y, tmp);
    }
 }
@@ -29,7 +32,23 @@ pub fn mem_swap<T>(x: &mut T, y: &mut T) {
 /// Growth of a heap buffer (`Vec` beyond its capacity) is treated as a *bound* of the harness:
 /// reachable growth fails the harness with the table-model capacity message (the driver reports
 /// "bound too small", never a pass); unreachable growth costs nothing.  Without this stub every
-/// `push`/`append` carries a `realloc` + `memcpy` of symbolic size that CBMC cannot prune.
-pub unsafe fn realloc_is_out_of_bound(_ptr: *mut u8, _layout: std::alloc::Layout, _new_size: usize) -> *mut u8 {
+/// `push`/`append` carries a `realloc` (fresh object of symbolic size + `memcpy`) that CBMC's
+/// array encoding cannot prune.
+pub unsafe fn realloc_is_out_of_bound(_ptr: std::ptr::NonNull<u8>, _layout: std::alloc::Layout, _new_size: usize) -> *mut u8 {
    panic!("capacity of the table model exceeded (a Vec grew beyond its allocated capacity)")
+}
+
+/// `Vec::append` as an element-wise move loop (same result, same order).  The real one is a
+/// single `memcpy` of symbolic length, which CBMC encodes with its array theory; every later
+/// read of the destination then costs quadratically many constraints (measured: > 14 GB).
+pub fn vec_append<T, A: std::alloc::Allocator>(this: &mut Vec<T, A>, other: &mut Vec<T, A>) {
+   let n = other.len();
+   unsafe {
+      other.set_len(0);
+      let mut i = 0;
+      while i < n {
+         this.push(std::ptr::read(other.as_ptr().add(i)));
+         i += 1;
+      }
+   }
 }
